@@ -295,6 +295,16 @@ def exe_path(name):
     return os.path.join(LEAN, '.lake', 'build', 'bin', 'kvmodel') if name == 'kvmodel' else os.path.join(BUILD, name)
 
 
+def patience(t):
+    """stretch a time bound when the machine is overloaded (load average above the number of CPUs): a slow environment is not a
+    hang. Never shortens; the harness does the same for its own watchdogs (harness/util.go patience)."""
+    try:
+        l1 = float(open('/proc/loadavg').read().split()[0])
+        return t * min(12.0, max(1.0, l1 / (os.cpu_count() or 1)))
+    except Exception:
+        return t
+
+
 def run_impl(comp, script_path, out_path, race=False, timeout=600, env=None):
     exe = exe_path('kvharness-race' if race else 'kvharness')
     with open(script_path, 'rb') as i, open(out_path, 'wb') as o:
@@ -303,14 +313,14 @@ def run_impl(comp, script_path, out_path, race=False, timeout=600, env=None):
         e.setdefault('GOMEMLIMIT', '3GiB')
         if env:
             e.update(env)
-        rc, err, dt = sh([exe, comp, 'run'], stdin=i, stdout=o, timeout=timeout, env=e)
+        rc, err, dt = sh([exe, comp, 'run'], stdin=i, stdout=o, timeout=patience(timeout), env=e)
     return rc, err
 
 
 def run_model(comp, script_path, out_path, timeout=900):
     exe = exe_path('kvmodel')
     with open(script_path, 'rb') as i, open(out_path, 'wb') as o:
-        rc, err, dt = sh([exe, comp], stdin=i, stdout=o, timeout=timeout)
+        rc, err, dt = sh([exe, comp], stdin=i, stdout=o, timeout=patience(timeout))
     return rc, err
 
 
